@@ -51,7 +51,11 @@ impl<'a, A: ?Sized + AuthorityImpl> AuthorityMutImpl<'a, A> {
 
 		match userinfo {
 			Some(new_userinfo) => match parse::find_user_info(bytes, self.start) {
-				Some(userinfo_range) => self.replace(userinfo_range, new_userinfo.as_bytes()),
+				Some(userinfo_range) => {
+					let old_len = userinfo_range.end - userinfo_range.start;
+					self.replace(userinfo_range, new_userinfo.as_bytes());
+					self.end = self.end + new_userinfo.len() - old_len
+				}
 				None => {
 					let added_len = new_userinfo.len() + 1;
 					self.allocate(self.start..self.start, added_len);
@@ -64,7 +68,7 @@ impl<'a, A: ?Sized + AuthorityImpl> AuthorityMutImpl<'a, A> {
 			None => {
 				if let Some(userinfo_range) = parse::find_user_info(bytes, self.start) {
 					self.replace(userinfo_range.start..(userinfo_range.end + 1), b"");
-					self.end -= userinfo_range.end - userinfo_range.start;
+					self.end -= userinfo_range.end + 1 - userinfo_range.start;
 				}
 			}
 		}
@@ -76,13 +80,8 @@ impl<'a, A: ?Sized + AuthorityImpl> AuthorityMutImpl<'a, A> {
 		let range = parse::find_host(bytes, self.start);
 		let host_len = range.end - range.start;
 
-		if host_len > host.len() {
-			self.end -= host_len - host.len()
-		} else {
-			self.end -= host.len() - host_len
-		}
-
 		self.replace(range, host.as_bytes());
+		self.end = self.end + host.len() - host_len;
 	}
 
 	#[inline]
@@ -90,7 +89,11 @@ impl<'a, A: ?Sized + AuthorityImpl> AuthorityMutImpl<'a, A> {
 		let bytes = &self.data[..self.end];
 		match port {
 			Some(new_port) => match parse::find_port(bytes, self.start) {
-				Some(range) => self.replace(range, new_port.as_bytes()),
+				Some(range) => {
+					let old_len = range.end - range.start;
+					self.replace(range, new_port.as_bytes());
+					self.end = self.end + new_port.len() - old_len
+				}
 				None => {
 					let added_len = new_port.len() + 1;
 					self.allocate(self.end..self.end, added_len);
@@ -103,7 +106,7 @@ impl<'a, A: ?Sized + AuthorityImpl> AuthorityMutImpl<'a, A> {
 			None => {
 				if let Some(port_range) = parse::find_port(bytes, self.start) {
 					self.replace((port_range.start - 1)..port_range.end, b"");
-					self.end -= port_range.end - port_range.start;
+					self.end -= port_range.end + 1 - port_range.start;
 				}
 			}
 		}
